@@ -99,6 +99,15 @@ func drawConfig(t *rapid.T, o simOpts) sim.Config {
 		cfg.FailCommit = []int{rapid.IntRange(0, n-1).Draw(t, "failnode")}
 		cfg.FailCommitH = uint64(rapid.IntRange(1, int(cfg.MaxHeight)).Draw(t, "failh"))
 	}
+	// an election (or a sync) handled by the main loop while the worker of one node sits in a consumer call
+	intOneIn := 6
+	if o.Focus == "C15" {
+		intOneIn = 1
+	}
+	if o.Focus != "C05" && rapid.IntRange(0, intOneIn).Draw(t, "interrupt?") == 0 {
+		cfg.Interrupt = &sim.Interrupt{Node: rapid.IntRange(0, n-1).Draw(t, "int-node"), Kind: rapid.SampledFrom([]string{"validate", "validate", "propose"}).Draw(t, "int-kind"),
+			Nth: rapid.IntRange(1, 3).Draw(t, "int-nth"), Event: rapid.SampledFrom([]string{"trigger", "trigger", "trigger", "sync"}).Draw(t, "int-event"), GiveUp: rapid.Bool().Draw(t, "int-giveup")}
+	}
 	// (not for C05: a failing transport loses messages, which the timely suffix of that property excludes)
 	if o.Focus != "C05" && rapid.IntRange(0, 7).Draw(t, "sendfail?") == 0 { // a transport that fails half way through a broadcast and says so
 		cfg.SendFail = []int{rapid.IntRange(0, n-1).Draw(t, "sendfail-node")}
@@ -475,6 +484,9 @@ func recordSim(col *ev.Collector, w *sim.World) {
 		if w.Obs.HeightsDone > w.Cfg.AbsentH {
 			col.Class("absent-member-height-completed")
 		}
+	}
+	if w.Obs.Interrupts > 0 {
+		col.Class("main-loop-event-during-consumer-call")
 	}
 	if w.Obs.SendFailures > 0 {
 		col.Class("transport-failure-reported-to-library")
